@@ -161,13 +161,14 @@ prop('C15', ['E1', 'E2', 'E3', 'E4', 'E5', 'E6', 'K7', 'I2', 'A5'],
      'call leaves its operands untouched (A5). Thorough tier: X1 across 4 CPython configurations.',
      ['reference-count equality after a fault at every k'], thorough_rules=['X1'])
 
-prop('C16', ['K8', 'K9', 'K9py', 'K7', 'I1', 'I2', 'I3', 'I4', 'S3'],
+prop('C16', ['K8', 'K9', 'K9py', 'K7', 'I1', 'I2', 'I3', 'I4', 'I5', 'S3'],
      'Memory safety / recursion, structural part: the three forward traversals share one depth '
      'discipline (K8); every recursive cycle of the engine call graph is bounded by '
      'MAX_RECURSION_DEPTH (K9) and Python-level recursion over tree depth is enumerated (K9py); no '
      'unchecked index into a list the user can shrink while user code runs in the loop (I1); '
      'nullable C-API results are tested (I2); index guards (I3); an index that is not a loop\'s '
-     'induction variable is range-tested before use (I4); unpickling validates what '
+     'induction variable is range-tested before use (I4); a hand-driven iterator is compared with '
+     'its end before every dereference (I5); unpickling validates what '
      'unchecked reads rely on (S3); malformed custom flatten results are rejected before use (K7). '
      'Thorough tier: the #if arms of the accessor wrappers agree across 4 CPython configurations (X1).',
      ['absence of all undefined behaviour'], thorough_rules=['X1'])
